@@ -91,7 +91,12 @@ def main():
     finally:
         shutil.rmtree(scratch, ignore_errors=True)
         run(["git", "-C", REPO, "worktree", "prune"])
-    json.dump(report, open(os.path.join(VERIF, "tools", "sensitivity_report.json"), "w"), indent=1)
+    path = os.path.join(VERIF, "tools", "sensitivity_report.json")
+    if sys.argv[1:] and os.path.exists(path):      # a partial run updates the entries it re-ran
+        old = json.load(open(path))
+        old.update(report)
+        report = old
+    json.dump(report, open(path, "w"), indent=1, sort_keys=True)
     bad = [k for k, v in report.items() if v["status"].startswith(("MISSED", "ALARM"))]
     print("missed / false alarms:", bad or "none")
     return 1 if bad else 0
